@@ -30,7 +30,7 @@ def plan(tier):
             "required_classes": ["one-site-chain", "stop-at-centre", "overcomplete-bond", "rank-deficient-bond", "bond-one",
                                  "mpo", "mpdm", "mps", "variational", "sweep:to_right", "sweep:to_left", "idempotence",
                                  "long-chain", "sector:zero-with-signed-labels", "variational:own-limit-below-schedule",
-                                 "ensure-canonical:explicit-tolerance-on-drifted-state"],
+                                 "ensure-canonical:explicit-tolerance-on-drifted-state", "stop-at-centre:non-canonical-state"],
             "required_counters": {"oracle": 2000, "isometry_checks": 1000}}
     if tier == "quick":
         base.update({"ncases": 320, "min_nontrivial": 60})
@@ -296,6 +296,28 @@ def run_case(ctx):
             w.isometric(cp, range(start, k), True, "canonicalise(stop_idx)")
         else:
             w.isometric(cp, range(k + 1, start + 1), False, "canonicalise(stop_idx)")
+
+    # ---- 4b. stop at the current centre of a state that is NOT canonical (the centre index is bookkeeping only) --------
+    if n >= 3 and not mp.is_mpo and rng.random() < 0.5:
+        cp = mp.copy()
+        cp.compress_config = fixed_cfg()
+        for _ in range(int(rng.integers(1, 3))):
+            states.bond_gauge(rng, cp, cplx=bool(cp.is_complex))
+        k = int(rng.integers(1, n - 1))
+        ctx.lib(cp.move_qnidx, k, what="move_qnidx")
+        if rng.random() < 0.5:
+            cp.to_right = not cp.to_right
+        to_right = bool(cp.to_right)
+        if w.same_object(cp, "harness|non-canonical-copy"):
+            ctx.cls("stop-at-centre:non-canonical-state")
+            ctx.lib(cp.canonicalise, stop_idx=k, what="canonicalise(stop_idx=centre)")
+            if w.same_object(cp, "canonicalise(stop_idx=centre)"):
+                ctx.check(cp.qnidx == k, "canonicalise(stop_idx=centre)|centre-not-at-stop", stop=k, qnidx=cp.qnidx)
+                # the sweep runs from the chain end towards the stop site: everything it passed is an isometry
+                if to_right:
+                    w.isometric(cp, range(0, k), True, "canonicalise(stop_idx=centre)")
+                else:
+                    w.isometric(cp, range(k + 1, n), False, "canonicalise(stop_idx=centre)")
 
     # ---- 5. lossless compression ------------------------------------------------------------------
     mode = int(rng.integers(0, 3))
